@@ -47,8 +47,8 @@ fn parse_console(l: &str) -> Result<Event, String> {
         "icmpv4" | "icmpv6" => 12,
         _ => 13,
     };
-    if c.len() != want {
-        return Err(format!("{} columns for a {} event, expected {}", c.len(), c[1], want));
+    if c.len() < want {
+        return Err(format!("{} columns for a {} event, expected at least {}", c.len(), c[1], want));
     }
     let mut f = BTreeMap::new();
     if c[1] == "arp" {
@@ -65,8 +65,8 @@ fn parse_console(l: &str) -> Result<Event, String> {
                 f.insert(k, c[i].to_string());
             }
         }
-        if c[1] != "udp" && c[10..].iter().any(|x| x.is_empty()) {
-            return Err("empty trailing column".into());
+        if c[1] != "udp" && c[10..want].iter().any(|x| x.is_empty()) {
+            return Err("empty protocol-specific column".into());
         }
     }
     Ok(Event {
